@@ -530,3 +530,106 @@ def section(ctx):
                       'headers': "{'content-length': str(length)}"}, kw
         return 'true'
     flag('s3UploadShape', upload_shape)
+
+    # ---- who puts requests on the wire: only `_prepare_request`, or also the HTTP library (followed redirects)?
+    # httpx runs the response hooks BEFORE it looks at the Location header (`_send_handling_redirects`), so a hook that calls
+    # `raise_for_status()` unconditionally ends every exchange that was answered outside 2xx; redirects are followed only when
+    # `follow_redirects` is true at the client or at a `send` / request call.  Both items are consumed by theorems of
+    # Properties/C16.lean; an unrecognised shape is emitted as the UNSAFE value (never silently assumed) with a note.
+    for nm in ('_make_request', '_make_streaming_request'):
+        ctx.fp(f's3c.S3Compatible.{nm}', ctx.find_func(tree, 'S3Compatible', nm))
+    ctx.fp('s3c._raise_for_status_hook', ctx.find_func(tree, '_raise_for_status_hook'))
+
+    def unsafe_default(name, ty, fn, unsafe):
+        try:
+            emit(f'def {name} : {ty} := {fn()}')
+        except Exception as e:  # noqa: BLE001
+            notes[f's3.{name}'] = f'not recognised, emitted as {unsafe}: {e!r}'[:300]
+            emit(f'def {name} : {ty} := {unsafe}')
+
+    def _client_ctor_calls():
+        return [n for n in ast.walk(tree) if isinstance(n, ast.Call) and un(n.func) in ('httpx.AsyncClient', 'httpx.Client', 'AsyncClient', 'Client')]
+
+    def follow_redirects():
+        yes = False
+        for n in ast.walk(tree):
+            if isinstance(n, ast.Call):
+                for k in n.keywords:
+                    if k.arg == 'follow_redirects':
+                        v = ast.literal_eval(k.value)          # raises for a non-literal → unsafe value
+                        assert isinstance(v, bool), un(n)
+                        yes = yes or v
+                    elif k.arg is None and un(n.func).split('.')[-1] in ('send', 'request', 'stream', 'get', 'put', 'head', 'delete', 'post',
+                                                                        'AsyncClient', 'Client'):
+                        raise ValueError('**kwargs reach ' + un(n.func))
+            elif isinstance(n, (ast.Assign, ast.AugAssign)):
+                for t in (n.targets if isinstance(n, ast.Assign) else [n.target]):
+                    if isinstance(t, ast.Attribute) and t.attr == 'follow_redirects':
+                        raise ValueError('assignment to ' + un(t))
+        return 'true' if yes else 'false'
+    unsafe_default('s3FollowRedirects', 'Bool', follow_redirects, 'true')
+
+    def max_redirects():
+        vals = set()
+        for c in _client_ctor_calls():
+            for k in c.keywords:
+                if k.arg == 'max_redirects':
+                    vals.add(ast.literal_eval(k.value))
+        if not vals:              # the library's default, read from the installed httpx (text; the extractor may run without httpx importable)
+            import glob
+            import re
+            for cfgpy in sorted(glob.glob('/venv/lib/python*/site-packages/httpx/_config.py')):
+                m = re.search(r'^DEFAULT_MAX_REDIRECTS\s*=\s*(\d+)\s*$', open(cfgpy).read(), flags=re.M)
+                if m:
+                    vals.add(int(m.group(1)))
+        assert len(vals) == 1 and all(isinstance(v, int) and v >= 0 for v in vals), vals
+        return str(vals.pop())
+    unsafe_default('s3MaxRedirects', 'Nat', max_redirects, '20')
+
+    def hook_raises():
+        """true iff the hook registered for responses calls `<response>.raise_for_status()` on every path: the call is a top-level
+        statement (or the first statement of a top-level `try` whose handlers all end in `raise`), preceded only by plain
+        assignments / expression statements."""
+        ctors = _client_ctor_calls()
+        assert len(ctors) == 1, [un(c) for c in ctors]
+        hooks = None
+        for k in ctors[0].keywords:
+            if k.arg == 'event_hooks':
+                assert isinstance(k.value, ast.Dict), un(k.value)
+                for kk, vv in zip(k.value.keys, k.value.values):
+                    if ast.literal_eval(kk) == 'response':
+                        assert isinstance(vv, (ast.List, ast.Tuple)), un(vv)
+                        hooks = [un(e) for e in vv.elts]
+        assert hooks, 'no response hook registered'
+        for n in ast.walk(tree):          # the hook table must not be changed elsewhere
+            if isinstance(n, ast.Attribute) and n.attr == 'event_hooks':
+                raise ValueError('event_hooks accessed: ' + un(n))
+
+        def is_rfs(st, param):
+            v = st.value if isinstance(st, ast.Expr) else None
+            if isinstance(v, ast.Await):
+                v = v.value
+            return isinstance(v, ast.Call) and un(v.func) == f'{param}.raise_for_status' and not v.args and not v.keywords
+
+        def plain(st):
+            return isinstance(st, (ast.Assign, ast.AnnAssign, ast.AugAssign, ast.Expr)) and not any(
+                isinstance(x, (ast.Return, ast.Raise, ast.Yield, ast.YieldFrom)) for x in ast.walk(st))
+
+        def raises_always(hname):
+            f = func(hname)
+            param = f.args.args[0].arg
+            for st in f.body:
+                if is_rfs(st, param):
+                    return True
+                if isinstance(st, ast.Try):
+                    body = [s for s in st.body]
+                    assert body and is_rfs(body[0], param), 'try does not start with raise_for_status(): ' + un(st)[:120]
+                    for h in st.handlers:
+                        assert isinstance(h.body[-1], ast.Raise), 'handler swallows the error: ' + un(h)[:120]
+                    assert not any(isinstance(x, ast.Return) for s in st.finalbody for x in ast.walk(s)), 'return in finally'
+                    return True
+                assert plain(st), 'statement before raise_for_status(): ' + un(st)[:120]
+            raise ValueError('no raise_for_status() in ' + hname)
+        assert any(raises_always(h) for h in hooks if h.isidentifier()), hooks
+        return 'true'
+    unsafe_default('s3HookRaisesOnNon2xx', 'Bool', hook_raises, 'false')
